@@ -632,6 +632,10 @@ func (p *Process) handleOutput(pipe io.ReadCloser, output string, handler func(m
 		line, err := reader.ReadString('\n')
 		if err != nil {
 			if err == io.EOF {
+				if len(line) > 0 {
+					// the last line was not terminated by a newline
+					p.handleOutputLine(line, handler)
+				}
 				break
 			}
 			var pathErr *os.PathError
@@ -644,14 +648,18 @@ func (p *Process) handleOutput(pipe io.ReadCloser, output string, handler func(m
 				Msgf("error reading from %s", output)
 			break
 		}
-		if p.procConf.ReadyLogLine != "" && p.procState.Health == types.ProcessHealthUnknown && strings.Contains(line, p.procConf.ReadyLogLine) {
-			p.procState.Health = types.ProcessHealthReady
-			p.readyLogCancelFn(nil)
-		}
-		p.checkElevatedProcOutput(line)
-		handler(strings.TrimSuffix(line, "\n"))
+		p.handleOutputLine(line, handler)
 	}
 	close(done)
+}
+
+func (p *Process) handleOutputLine(line string, handler func(message string)) {
+	if p.procConf.ReadyLogLine != "" && p.procState.Health == types.ProcessHealthUnknown && strings.Contains(line, p.procConf.ReadyLogLine) {
+		p.procState.Health = types.ProcessHealthReady
+		p.readyLogCancelFn(nil)
+	}
+	p.checkElevatedProcOutput(line)
+	handler(strings.TrimSuffix(line, "\n"))
 }
 
 func (p *Process) checkElevatedProcOutput(line string) {
